@@ -69,6 +69,10 @@ class TypeParsingCtx:
     self_ty: Type | None = None
 
 
+#: Exclusive upper bound for `nat` type arguments (they are lowered to 64-bit `BoundedNat`s)
+_NAT_BOUND = 1 << (1 << NumericType.INT_WIDTH)
+
+
 def arg_from_ast(node: AstNode, ctx: TypeParsingCtx) -> Argument:
     """Turns an AST expression into an argument."""
     from guppylang_internals.checker.cfg_checker import VarNotDefinedError
@@ -108,7 +112,7 @@ def arg_from_ast(node: AstNode, ctx: TypeParsingCtx) -> Argument:
             # Integer literals are turned into nat args.
             # TODO: To support int args, we need proper inference logic here
             #   See https://github.com/quantinuum/guppylang/issues/1030
-            case int(v) if v >= 0:
+            case int(v) if 0 <= v < _NAT_BOUND:
                 nat_ty = NumericType(NumericType.Kind.Nat)
                 return ConstArg(ConstValue(nat_ty, v))
             case float(v):
@@ -126,7 +130,7 @@ def arg_from_ast(node: AstNode, ctx: TypeParsingCtx) -> Argument:
         from guppylang_internals.checker.expr_checker import eval_comptime_expr
 
         v = eval_comptime_expr(comptime_expr, Context(ctx.globals, Locals({}), {}))
-        if isinstance(v, int):
+        if isinstance(v, int) and 0 <= v < _NAT_BOUND:
             nat_ty = NumericType(NumericType.Kind.Nat)
             return ConstArg(ConstValue(nat_ty, v))
         else:
